@@ -152,7 +152,7 @@ fn observe(text: &str, names: &[&str], pks: &[&str]) -> Result<Obs, String> {
     })
 }
 
-fn judge(rep: &Report, text: &str, names: &[&str], pks: &[&str]) -> bool {
+pub fn judge(rep: &Report, text: &str, names: &[&str], pks: &[&str]) -> bool {
     let case = || json!({"kind":"text","text":text});
     let obs = match observe(text, names, pks) {
         Ok(o) => o,
@@ -206,6 +206,12 @@ fn alphabet(seed: u64) -> Alpha {
     let k2 = r::encode_pk(&ids[1].pk);
     let s1 = r::b64(&derive(seed, "c17-sk", 84));
     let short = r::b64(&derive(seed, "c17-35", 35));
+    // the 32 key bytes of K1 with a WRONG checksum: well-formed for the parser, a different encoded key for lookups
+    let k1_badsum = {
+        let mut b = r::b64_decode(&k1).unwrap();
+        b[35] ^= 0x01;
+        r::b64(&b)
+    };
     let tokens = vec![
         "[Key]".to_string(),
         "Name = a".to_string(),
@@ -221,8 +227,9 @@ fn alphabet(seed: u64) -> Alpha {
         "".to_string(),
         "junk".to_string(),
         format!("PublicKey = {} {}", &k2[..20], &k2[20..]),
+        format!("PublicKey = {}", k1_badsum),
     ];
-    Alpha { tokens, names: vec!["a", "b", "", "c"], pks: vec![k1, k2] }
+    Alpha { tokens, names: vec!["a", "b", "", "c"], pks: vec![k1, k2, k1_badsum] }
 }
 
 fn enumerate(rep: &Report, al: &Alpha, tokens: &[String], maxlen: usize, decorate: bool, counter: &AtomicU64, wf: &AtomicU64, bad: &AtomicU64) {
@@ -343,7 +350,7 @@ fn pubkey_case(rep: &Report, s: &str) {
 
 pub fn run(rep: &'static Report) {
     let seed = rep.seed;
-    rep.set_rule("E-GRID: every sequence of <= 6 (quick) / 7 (thorough) lines over a 14-token alphabet (with/without final newline), every sequence of <= 4 lines over a reduced alphabet with line decorations, the serialize->parse round trip for every name of <= 3 characters over a 9-character alphabet and boundary lengths, and every single-character substitution / checksum perturbation of encoded public keys; each text is parsed by the real parser and compared with REF's reading. distinct non-trivial = texts that REF classifies as well-formed or as unambiguously bad (the others only check 'no crash') + round-trip names + key strings");
+    rep.set_rule("E-GRID: every sequence of <= 6 (quick) / 7 (thorough) lines over a 15-token alphabet (with/without final newline), every sequence of <= 4 lines over a reduced alphabet with line decorations, the serialize->parse round trip for every name of <= 3 characters over a 9-character alphabet and boundary lengths, and every single-character substitution / checksum perturbation of encoded public keys; each text is parsed by the real parser and compared with REF's reading. distinct non-trivial = texts that REF classifies as well-formed or as unambiguously bad (the others only check 'no crash') + round-trip names + key strings");
     rep.assume("the statement gives necessary conditions for acceptance: texts using constructs it leaves open (duplicate fields in a section, fields outside a section, junk lines, no section) are only checked for 'no crash'");
     let al = alphabet(seed);
     let counter = AtomicU64::new(0);
@@ -365,6 +372,54 @@ pub fn run(rep: &'static Report) {
     let before = counter.load(Ordering::Relaxed);
     enumerate(rep, &al, &dtokens, rep.tier.pick(3, 4), true, &counter, &wf, &bad);
     rep.extra("decorated_sequences", json!({"tokens":dtokens.len(),"texts":counter.load(Ordering::Relaxed)-before}));
+    // sequences of COMPLETE sections: every sequence of <= 4 sections over a 12-section alphabet (duplicates that are
+    // not adjacent, three-way clashes, bad-checksum copies of a key, case variants of a name)
+    {
+        let pks: Vec<&str> = al.pks.iter().map(|s| s.as_str()).collect();
+        let (k1, k2, k1bad) = (&al.pks[0], &al.pks[1], &al.pks[2]);
+        let k3 = r::encode_pk(&idents(seed)[2].pk);
+        let sk = al.tokens[8].clone();
+        let mut secs: Vec<String> = vec![];
+        for (n, k) in [("a", k1), ("a", k2), ("b", k1), ("b", k2), ("c", &k3), ("A", &k3), ("a", k1bad), ("c", k1bad)] {
+            secs.push(format!("[Key]\nName = {}\nPublicKey = {}\n", n, k));
+        }
+        secs.push(format!("[Key]\nName = b\nPublicKey = {}\n{}\n", k2, sk));
+        secs.push(format!("[Key]\nPublicKey = {}\nName = c\n# comment\n", k3));
+        secs.push("[Key]\nName = d\n".to_string());
+        secs.push(format!("[Key]\nPublicKey = {}\n", k3));
+        let n = secs.len();
+        let depth = rep.tier.pick(4usize, 5);
+        let mut seqs: Vec<Vec<usize>> = vec![vec![]];
+        let mut frontier: Vec<Vec<usize>> = vec![vec![]];
+        for _ in 0..depth {
+            let mut next = vec![];
+            for s0 in &frontier {
+                for k in 0..n {
+                    let mut s1 = s0.clone();
+                    s1.push(k);
+                    next.push(s1);
+                }
+            }
+            seqs.extend(next.iter().cloned());
+            frontier = next;
+        }
+        let names2 = ["a", "b", "c", "A", "d"];
+        seqs.par_iter().for_each(|sq| {
+            let text: String = sq.iter().map(|&i| secs[i].as_str()).collect::<Vec<_>>().join("\n");
+            counter.fetch_add(1, Ordering::Relaxed);
+            match classify(&text) {
+                Class::WellFormed(_) => {
+                    wf.fetch_add(1, Ordering::Relaxed);
+                }
+                Class::Bad(_) => {
+                    bad.fetch_add(1, Ordering::Relaxed);
+                }
+                Class::Open => {}
+            }
+            judge(rep, &text, &names2, &pks);
+        });
+        rep.extra("section_sequences", json!({"sections":n,"max_sections":depth,"texts":seqs.len()}));
+    }
     // single-line shape grid: every byte length 0..140 of ASCII followed by multi-byte characters, in every line role
     // (a slice or limit at any byte offset of a line is exercised on and off a character boundary)
     let pks: Vec<&str> = al.pks.iter().map(|s| s.as_str()).collect();
@@ -378,6 +433,17 @@ pub fn run(rep: &'static Report) {
                         continue;
                     }
                     shapes.push(format!("{}{}{}", role, "x".repeat(k), mb.repeat(m)));
+                }
+            }
+        }
+    }
+    // long values made of multi-byte characters (a byte-offset slice anywhere in a long name/line falls inside a character)
+    for role in ["", "Name = ", "# ", "PublicKey = "] {
+        for mb in ["\u{e9}", "\u{20ac}", "\u{1F600}"] {
+            for pre in 0..4usize {
+                for total in [40usize, 100, 127, 128, 129, 130, 160, 200, 260] {
+                    let n = total.saturating_sub(pre) / mb.len();
+                    shapes.push(format!("{}{}{}", role, "x".repeat(pre), mb.repeat(n)));
                 }
             }
         }
